@@ -190,14 +190,10 @@ func (sc *StateCache) Get(key, blockHash string) (Value, bool) {
 
 		// // save into current block cache when it's 20 rounds behind
 		// if count >= 20 {
-		bvsi, err := lru.New(200)
-		if err != nil {
-			panic(err)
-		}
-
-		bvsi.Add(oldBlockHash, v)
-
-		sc.cache.Add(key, bvsi)
+		// memoise in the key's existing per-block map: replacing the map would drop
+		// the values other blocks wrote, and an entry the queried block got meanwhile
+		// (its own commit) must not be overwritten by the ancestor's value
+		bvs.ContainsOrAdd(oldBlockHash, v)
 		// logging.Logger.Debug("state cache - migrate from previous block",
 		// 	zap.String("key", key),
 		// 	zap.Int("depth", count))
